@@ -425,3 +425,11 @@ Theorem C10_safe_names_are_plain : forall name r,
   /\ forall h, h <> [] -> forallb is_hexdigit h = true -> url_plain (h ++ 46 :: r) = true.
 Proof. exact safe_name_plain. Qed.
 Print Assumptions C10_safe_names_are_plain.
+
+(* Two different plain file names never share a file - neither where publication puts them nor where a local client
+   looks for them: one target's file is never written over, or served as, another's. *)
+Theorem C10_plain_names_never_share_a_file : forall base f1 f2,
+  base <> [] -> forallb (fun c => negb (is_empty c)) base = true -> url_plain f1 = true -> url_plain f2 = true ->
+  (put_comps base f1 = put_comps base f2 \/ url_join base f1 = url_join base f2) -> f1 = f2.
+Proof. exact plain_names_apart. Qed.
+Print Assumptions C10_plain_names_never_share_a_file.
